@@ -73,14 +73,28 @@ def _bound_to_container(fi: FuncInfo, name: str) -> bool:
     return False
 
 
+def _is_unit_payload(fi: FuncInfo, base: ast.AST) -> bool:
+    """is `base` a parameter declared to (possibly) hold a ValueWithUnit payload?"""
+    if not isinstance(base, ast.Name) or isinstance(fi.node, ast.Lambda):
+        return False
+    for a in fi.params:
+        if a.arg == base.id and a.annotation is not None and "ValueWithUnit" in ast.unparse(a.annotation):
+            return True
+    return False
+
+
 def _quantity_of(fi: FuncInfo, e: ast.AST, depth: int = 0) -> Optional[Tuple[str, str]]:
     """(kind, how we know) if the expression denotes a zero-is-legitimate quantity"""
     if isinstance(e, ast.Call) and isinstance(e.func, ast.Name) and e.func.id in ("getattr", "float", "abs", "bool", "get_value", "round", "int") and e.args:
         return _quantity_of(fi, e.args[0], depth)
     if isinstance(e, ast.Attribute):
+        if e.attr == "value" and _is_unit_payload(fi, e.value):
+            return "input magnitude (a temperature, duty, price or coefficient)", "the .value of a value-with-unit payload"
         k = quantity_kind(e.attr.lstrip("_"))
         return (k, f"attribute '{e.attr}'") if k else None
     if isinstance(e, ast.Subscript) and isinstance(e.slice, ast.Constant) and isinstance(e.slice.value, str):
+        if e.slice.value == "value" and _is_unit_payload(fi, e.value):
+            return "input magnitude (a temperature, duty, price or coefficient)", "the 'value' entry of a value-with-unit payload"
         k = quantity_kind(e.slice.value)
         return (k, f"entry {e.slice.value!r}") if k else None
     if isinstance(e, ast.IfExp):
